@@ -289,4 +289,4 @@ func vfC15RunHook(c *vt.Ctx, s vfC15HookScenario) {
 	}
 }
 
-func TestVerifC15Webhook(t *testing.T) { vt.Run(t, vfC15GenHook, vfC15RunHook) }
+func TestVerifC15Webhook(t *testing.T) { vt.Run(t, vfC15GenHook, g.NoPanic(vfC15RunHook)) }
